@@ -49,9 +49,15 @@ THEOREMS = [
     "JanetModel.Props.C01.lock_unlock_restores",
     "JanetModel.Props.C01.suspended_region_keeps_heap",
     "JanetModel.Props.C01.gc_transparent_locked",
+    # session 3: weak containers at slot level
+    "JanetModel.Props.C01.weak_table_survives_iff_reachable",
+    "JanetModel.Props.C01.weak_array_survives_iff_reachable",
+    "JanetModel.Props.C01.weak_table_wf_preserved",
+    "JanetModel.Props.C01.weak_kinds",
+    "JanetModel.Props.C01.dropSlot_iff",
 ]
 H = os.path.join(VERIF, "harness/C01")
-SOURCES = [os.path.join(H, x) for x in ("gch.c", "w_ev.c", "w_net.c", "w_os.c", "w_filewatch.c")]
+SOURCES = [os.path.join(H, x) for x in ("gch.c", "w_ev.c", "w_net.c", "w_os.c", "w_filewatch.c", "w_ffi.c")]
 ROOT_SOURCES = [os.path.join(H, x) for x in ("roots.c", "w_vm.c")]
 ROOT_OPS = os.path.join(VERIF, "corpus/C01/roots")
 EDGES = os.path.join(VERIF, "corpus/C01/edges")
@@ -220,8 +226,10 @@ def roots_stage(ctx, quick, driver, gen_info, broken, only=None):
         for k, v in stats.items():
             agg[k] = max(agg.get(k, 0), v) if k.startswith("max_") else agg.get(k, 0) + v
         if viol:
-            ctx.violation("roots:" + viol[0].split(":", 1)[1].strip()[:40], dict(replay, findings=viol[:10], states=st[:400]),
-                          what="root-set protocol oracle (%s, %s): %s" % (name, variant, viol[0][:300]))
+            tot["oracle_violations"] = tot.get("oracle_violations", 0) + 1
+            if tot["oracle_violations"] <= 6:      # the first few histories are enough as replays
+                ctx.violation("roots:" + viol[0].split("|")[0], dict(replay, findings=viol[:10], states=st[:400]),
+                              what="root-set protocol oracle (%s, %s): %s" % (name, variant, viol[0].split("|", 1)[1][:300]))
         if contract:
             tot["contract_findings"] += len(contract)
             if gen_info.get("unrootallRescans"):
@@ -318,9 +326,11 @@ def _run(ctx, quick, broken, exes, driver, tmp, gen_info, only_replay):
         g = "scenario:" + os.path.basename(p)
         groups[g] = dict(prog=p, kind="scenario", need=need, opt=opt, observes=observes)
         beh = scheds or ["never", "always", "p16"]
-        jobs.append((g, Job(p, "plain", "never", graph=True, crit=True, dump=(1, 0, 1), stack_kb=stack)))
+        weaky = "weak" in os.path.basename(p)      # every collection of a weak-container scenario goes through the model's weak pass
+        jobs.append((g, Job(p, "plain", "never", graph=True, crit=True, dump=(1, 0, 12 if weaky else 1), stack_kb=stack)))
         for s in beh[1:]:
-            jobs.append((g, Job(p, "plain", s, seed=rng.next() % 10**9, graph=True, dump=(rng.range(2, 40), rng.below(40), 1), stack_kb=stack)))
+            jobs.append((g, Job(p, "plain", s, seed=rng.next() % 10**9, graph=True,
+                                dump=(rng.range(2, 6), rng.below(6), 12) if weaky else (rng.range(2, 40), rng.below(40), 1), stack_kb=stack)))
         if not observes:
             for v in ("asan", "asan_debugstack"):
                 for s in beh:
